@@ -197,6 +197,7 @@ class LemmaExec(Exec):
         self.exits = []
         self.loop_ordinal = 0
         self.checking = True
+        self.binders = 0
         self.notes = []
         self.is_generator = False
         self.fnname = "lemma." + self.qual
